@@ -144,3 +144,31 @@ def model_struct_equal(a, b, text_a, text_b, notes):
     if isinstance(a, list):
         return len(a) == len(b) and all(model_struct_equal(x, y, text_a, text_b, notes) for x, y in zip(a, b))
     return a == b
+
+
+# ---------------------------------------------------------------- one Coq expression per case
+SEP = "~"
+
+
+def case_expr(lets, parts):
+    """(let x := v in ... sjoin "~" [part; ...])%string : the (large) grammar terms of a case appear once,
+    inside the only expression that needs them, so every evaluation shard carries only its own grammars."""
+    head = " ".join("let %s := %s in" % (n, v) for n, v in lets)
+    return "(%s sjoin \"%s\" [%s])%%string" % (head, SEP, "; ".join("(%s)%%string" % x for x in parts))
+
+
+def eval_cases(tag, per_case, shard=60):
+    """per_case: list of (lets, parts, keys). Returns ({key: value}, errors)."""
+    exprs = [case_expr(lets, parts) for lets, parts, _ in per_case]
+    vals, errs = core.coq_eval(tag, IMPORTS, exprs, shard=shard)
+    out = {}
+    errs = list(errs)
+    for (lets, parts, keys), v in zip(per_case, vals):
+        if v is None:
+            continue
+        xs = v.split(SEP)
+        if len(xs) != len(keys):
+            errs.append("case result has %d parts, expected %d" % (len(xs), len(keys)))
+            continue
+        out.update(zip(keys, xs))
+    return out, errs
